@@ -319,9 +319,9 @@ func init() {
 			switch *prop {
 			case "C15", "C18":
 				for _, fset := range flagSets {
-					spellings := []string{"rel", "abs", "pkgdir", "gofile", "dotrel", "absoutside", "bareout"}
+					spellings := []string{"rel", "abs", "pkgdir", "gofile", "dotrel", "absoutside", "bareout", "gofileother"}
 					if !*thorough {
-						spellings = []string{"rel", []string{"abs", "pkgdir", "gofile", "dotrel", "absoutside", "bareout"}[r.Intn(6)]}
+						spellings = []string{"rel", []string{"abs", "pkgdir", "gofile", "dotrel", "absoutside", "bareout", "gofileother"}[r.Intn(7)]}
 					}
 					if movable(c) {
 						spellings = append(spellings, "dotgo")
@@ -344,6 +344,13 @@ func init() {
 						for _, st := range states {
 							scenarios = append(scenarios, buildScenario(c, fset, sp, st))
 						}
+					}
+				}
+			case "C17":
+				// which file is the input: the argument, else $GOFILE — also when both are given and differ
+				for _, sp := range []string{"rel", "pkgdir", "gofile", "gofileother"} {
+					for _, fset := range [][]string{nil, {"-out"}, {"-dry", "-print"}} {
+						scenarios = append(scenarios, buildScenario(c, fset, sp, "absent"))
 					}
 				}
 			case "C13":
@@ -546,6 +553,7 @@ func init() {
 				if !dry && writable {
 					if o.Output == nil || *o.Output != ref.Bytes {
 						addJ("C18", "C18|output-path-or-bytes", fmt.Sprintf("%v: expected the generated code at %q", o.Scenario.Argv, outRel))
+						addJ("C17", "C17|input-file-not-converted", fmt.Sprintf("%v (GOFILE=%q): the functions of the input file's converter interfaces are not at %q", o.Scenario.Argv, o.Scenario.Gofile, outRel))
 					}
 					if o.CLI.Exit != 0 {
 						addJ("C18", "C18|exit-status", fmt.Sprintf("%v: exit %d on an accepted input", o.Scenario.Argv, o.CLI.Exit))
@@ -750,6 +758,15 @@ func spellArgs(c GCase, flags []string, spelling string) spelled {
 			argv = append(argv, "-out", "conv_out.go")
 		}
 		s.Gofile = filepath.Base(setup)
+	case "gofileother":
+		// as under go generate when the directive lives in another file of the package and names the setup file:
+		// $GOFILE is the file with the directive, the argument is the input
+		s.Cwd = filepath.Dir(setup)
+		if outArg != "" {
+			argv = append(argv, "-out", "conv_out.go")
+		}
+		argv = append(argv, filepath.Base(setup))
+		s.Gofile = "types.go"
 	case "dotgo":
 		moved := filepath.Join("svc.golang", filepath.Dir(setup), "user.gorm.go")
 		if outArg != "" {
